@@ -393,3 +393,116 @@ Proof.
     + inversion El; subst. destruct (dm_line_exn _ _ _ _ E1) as [->|[-> Hs]]; [left; reflexivity|right].
       split; [reflexivity|]. exists l. split; [now left|exact Hs].
 Qed.
+
+(* ---------- matrix ---------- *)
+Fixpoint ones (k : Z) (bits : list Z) : list Z :=
+  match bits with
+  | [] => []
+  | b :: t => (if b =? 1 then [k] else []) ++ ones (k + 1) t
+  end.
+
+Lemma ones_range : forall bits k j, In j (ones k bits) -> k <= j < k + Z.of_nat (length bits).
+Proof.
+  induction bits as [|b t IH]; intros k j H; [destruct H|]. cbn [ones length] in *.
+  apply in_app_or in H as [H|H].
+  - destruct (b =? 1); [|destruct H]. destruct H as [<-|[]]. lia.
+  - apply IH in H. lia.
+Qed.
+
+Lemma entries_inv total m : forall s k G G' s', io_kind G = KBipartite -> k <= total ->
+  gio_matrix_entries s k total m G = GOk (G', s') ->
+  exists bits, s = map MGood bits ++ s' /\ Z.of_nat (length bits) = total - k /\
+    Forall (fun b => b = 0 \/ b = 1) bits /\ Forall (edge_ok G) (map (mcell m) (ones k bits)) /\
+    G' = gio_with_edges G (insert_all (map (mcell m) (ones k bits)) (io_edges G)).
+Proof.
+  induction s as [|tok t IH]; intros k G G' s' HK Hk H; rewrite entries_unfold in H.
+  - destruct (k >=? total) eqn:E; [|discriminate]. inversion H; subst. exists []. cbn. rewrite with_edges_self.
+    repeat split; auto; lia.
+  - destruct (k >=? total) eqn:E.
+    + inversion H; subst. exists []. cbn. rewrite with_edges_self. repeat split; auto; lia.
+    + destruct tok as [b|]; [|discriminate]. destruct (b =? 1) eqn:E1.
+      * destruct (gio_add_edge G (k / m + 1) (k mod m + 1)) as [G1|] eqn:Ea; [|discriminate]. cbn [gio_bind] in H.
+        apply add_edge_inv in Ea as [Hok ->]. rewrite HK in H.
+        apply IH in H as (bits & -> & Hlen & Hb & Hoks & ->); [|exact HK|lia].
+        exists (b :: bits). cbn [map app length ones]. rewrite E1. cbn [app map].
+        split; [reflexivity|]. split; [lia|]. split; [constructor; [lia|exact Hb]|]. split.
+        -- constructor; [exact Hok|]. eapply Forall_impl; [|exact Hoks]. intros e He. now apply edge_ok_with_edges in He.
+        -- rewrite with_edges_twice, with_edges_edges. reflexivity.
+      * destruct (b =? 0) eqn:E0; [|discriminate].
+        apply IH in H as (bits & -> & Hlen & Hb & Hoks & ->); [|exact HK|lia].
+        exists (b :: bits). cbn [map app length ones]. rewrite E1. cbn [app].
+        split; [reflexivity|]. split; [lia|]. split; [constructor; [lia|exact Hb]|]. split; [exact Hoks|reflexivity].
+Qed.
+
+Lemma entries_exn total m : forall s k G e, gio_matrix_entries s k total m G = GRaise e -> e = EValueError.
+Proof.
+  induction s as [|tok t IH]; intros k G e H; rewrite entries_unfold in H.
+  - destruct (k >=? total); now inversion H.
+  - destruct (k >=? total); [discriminate|]. destruct tok as [b|]; [|now inversion H].
+    destruct (b =? 1).
+    + destruct (gio_add_edge G (k / m + 1) (k mod m + 1)) as [G1|e1] eqn:Ea; cbn [gio_bind] in H; [eauto|].
+      inversion H; subst. eapply add_edge_exn; eauto.
+    + destruct (b =? 0); [eauto|now inversion H].
+Qed.
+
+Lemma bits_ones : forall bits k, Forall (fun b => b = 0 \/ b = 1) bits ->
+  bits = map (fun j => bitZ (existsb (Z.eqb j) (ones k bits))) (zseq k (length bits)).
+Proof.
+  induction bits as [|b t IH]; intros k HF; [reflexivity|]. inversion HF as [|x y Hb Ht]; subst.
+  cbn [length]. rewrite zseq_S. cbn [map ones]. f_equal.
+  - rewrite existsb_app. destruct Hb as [->| ->]; cbn [Z.eqb Pos.eqb existsb orb].
+    + destruct (existsb (Z.eqb k) (ones (k + 1) t)) eqn:E; [|reflexivity].
+      apply existsb_exists in E as [j [Hj Ej]]. apply ones_range in Hj. lia.
+    + rewrite Z.eqb_refl. reflexivity.
+  - rewrite (IH (k + 1) Ht) at 1. apply map_ext_in. intros j Hj. apply zseq_In in Hj. f_equal.
+    rewrite existsb_app. destruct (b =? 1); cbn [existsb orb]; [|reflexivity].
+    replace (j =? k) with false by lia. reflexivity.
+Qed.
+
+Lemma mcell_inj m j j' : 0 < m -> mcell m j = mcell m j' -> j = j'.
+Proof.
+  intros Hm H. unfold mcell in H. inversion H. rewrite (Z.div_mod j m), (Z.div_mod j' m) by lia.
+  replace (j / m) with (j' / m) by lia. replace (j mod m) with (j' mod m) by lia. reflexivity.
+Qed.
+
+(* reader soundness: the integers of the non comment lines are exactly those of the canonical file of the graph *)
+Theorem matrix_sound text G : gio_read_matrix text = GOk G ->
+  gio_wf G /\ io_kind G = KBipartite /\ io_name G = [] /\
+  gio_matrix_stream (gt_lines text) = map MGood (concat (matrix_rows G)).
+Proof.
+  unfold gio_read_matrix. intros H.
+  destruct (gio_matrix_stream (gt_lines text)) as [|[n|] s1]; try discriminate. cbn [gio_mpop gio_bind fst snd] in H.
+  destruct s1 as [|[m|] s2]; try discriminate. cbn [gio_mpop gio_bind fst snd] in H.
+  destruct (gio_new KBipartite [] n m) as [G0|] eqn:En; [|discriminate]. cbn [gio_bind] in H.
+  apply new_inv in En as (Hn & Hm & ->).
+  destruct (gio_matrix_entries s2 0 (n * m) m (mkIOG KBipartite [] n m [])) as [[G' s']|] eqn:Ee; [|discriminate].
+  cbn [gio_bind fst snd] in H. destruct s'; [|discriminate]. inversion H; subst G'. clear H.
+  apply entries_inv in Ee as (bits & -> & Hlen & Hb & Hoks & ->); [|reflexivity|nia].
+  cbn [io_kind io_edges] in *. rewrite app_nil_r.
+  split; [apply (with_edges_wf (mkIOG KBipartite [] n m [])) in Hoks; [|now apply new_bip_wf]; cbn [io_kind io_edges edge_norm] in Hoks;
+          rewrite map_id in Hoks; exact Hoks|].
+  split; [reflexivity|]. split; [reflexivity|].
+  unfold matrix_rows. cbn [gio_with_edges io_n io_r concat map app]. do 3 f_equal.
+  rewrite <- flat_map_concat_map.
+  pose proof (flat_rows (fun u v => bitZ (gio_has_edge (gio_with_edges (mkIOG KBipartite [] n m []) (insert_all (map (mcell m) (ones 0 bits)) [])) u v)) m Hm (Z.to_nat n)) as FR.
+  rewrite Z2Nat.id in FR by exact Hn. cbn [gio_with_edges io_kind io_name io_n io_r] in FR. rewrite FR. clear FR.
+  replace (Z.to_nat n * Z.to_nat m)%nat with (length bits) by nia.
+  rewrite (bits_ones bits 0 Hb) at 1. apply map_ext_in. intros j Hj. apply zseq_In in Hj. f_equal.
+  apply eq_true_iff_eq. rewrite existsb_exists, has_edge_In. cbn [gio_with_edges io_kind io_edges edge_norm].
+  change (j / m + 1, j mod m + 1) with (mcell m j).
+  rewrite insert_all_In. cbn [In]. split.
+  - intros [j' [Hj' E]]. left. apply in_map_iff. exists j'. split; [|exact Hj']. f_equal. lia.
+  - intros [Hin|[]]. apply in_map_iff in Hin as [j' [Hc Hj']]. exists j'. split; [exact Hj'|].
+    apply mcell_inj in Hc; [lia|nia].
+Qed.
+
+Theorem matrix_exn text e : gio_read_matrix text = GRaise e -> e = EValueError.
+Proof.
+  unfold gio_read_matrix. intros H.
+  destruct (gio_matrix_stream (gt_lines text)) as [|[n|] s1]; try (now inversion H). cbn [gio_mpop gio_bind fst snd] in H.
+  destruct s1 as [|[m|] s2]; try (now inversion H). cbn [gio_mpop gio_bind fst snd] in H.
+  destruct (gio_new KBipartite [] n m) as [G0|e1] eqn:En; cbn [gio_bind] in H; [|inversion H; subst; eapply new_exn; eauto].
+  destruct (gio_matrix_entries s2 0 (n * m) m G0) as [[G' s']|e2] eqn:Ee; cbn [gio_bind fst snd] in H.
+  - destruct s'; now inversion H.
+  - inversion H; subst. eapply entries_exn; eauto.
+Qed.
